@@ -15,6 +15,12 @@ def scale_inner(op):
 HOOK_COMMITS = []
 
 PROPS = {
+    "C01": {"claim": "Model of the qr package (four mode encoders incl. Atoi semantics, version search, padding, block split/interleave + RS, all eight masked renderings with the four penalty rules and the argmin, format/version information, alignment geometry in exact arithmetic) tied by correspondence on every version x level x mode capacity boundary; judged by a reference decoder written from ISO/IEC 18004 (BCH by generator polynomial, Annex E centres, function-module map, zig-zag read, ISO block table, RS validity by evaluation, segment parse, terminator and pad rules).",
+            "obs": None, "exhaustive_note": "quick: capacity-1/capacity/capacity+1 for every (level, mode) of versions 1-10 and a rotating pair for 11-40; thorough: all 160 x 3 x 3 boundary cases"},
+    "C02": {"claim": "Model of the datamatrix package (encodation, padding, size choice, block interleave + RS, placement with both wrap rules, corner cases and panics, region merge) tied by correspondence on every size and capacity boundary; judged by a reference decoder written from ISO/IEC 16022 (attribute table, finder/clock tracks, Annex F placement pseudo-code, RS validity by evaluation, ASCII decodation with 253-state pads).",
+            "obs": None, "exhaustive_note": "all 24 sizes at capacity-1/capacity/capacity+1 in several content classes"},
+    "C04": {"claim": "Model of the pdf417 package (text/byte/numeric compaction state machines, dimensions, RS LFSR, row indicators, rendering) tied by correspondence incl. every total codeword count 3..905; judged by a reference decoder written from ISO/IEC 15438 (start/stop, cluster rule, indicators, RS validity over GF(929) by evaluation, compaction modes). The 3x929 pattern order is a frozen snapshot (DESIGN 1.1).",
+            "obs": None, "exhaustive_note": "every total codeword count 3..905, i.e. all 104 reachable (rows, cols) shapes"},
     "C05": {"claim": 'Model of code128/encode.go (Lean; tables regenerated from /repo each run) tied to the code by correspondence (exhaustive for lengths 1-2 over the 132-symbol alphabet, structured random beyond) and judged by a reference decoder written from ISO/IEC 15417 in element-width form.', "obs": None, "exhaustive_note": "all strings of length 1..2 over the 132-symbol alphabet, both checksum variants"},
     "C06": {"claim": 'Model of ean/encoder.go tied by correspondence; Spec decoder from the L set (R, G and parity derived); acceptance and check digit stated for every digit string.', "obs": None, "exhaustive_note": "every (first digit, position, digit) cell for 7- and 12-digit bodies"},
     "C07": {"claim": 'Models of code39/ and code93/ tied by correspondence (exhaustive lengths 0-2 over ASCII x 4 option mixes); Spec decoders from the Code 39 generating rule and the Code 93 width table incl. check characters and full-ASCII pair resolution.', "obs": None, "exhaustive_note": "all strings of length 0..2 over ASCII 0..127 x 4 option mixes, both symbologies"},
